@@ -107,6 +107,19 @@ def coq_check_expr(st):
     return f"check_idx {st['nb']}%nat {tp['nbp']}%nat {pb} {cb} {kd} {pr} {coq_layout_args(st)}"
 
 
+def coq_mstore_expr(st, g, v, vt, ct, dt):
+    """is the assembled store M-matrix-like (Proofs/HinesArrPositive.v)?"""
+    tp = topology(st)
+    pb = "[" + "; ".join(coq_opt(x) for x in tp["pbp"]) + "]"
+    cb = "[" + "; ".join(coq_opt(x) for x in tp["cbp"]) + "]"
+    kd = "[" + "; ".join(nat_list(k) for k in tp["kids"]) + "]"
+    pr = nat_list([p if p is not None else 0 for p in tp["par"]])
+    es = "[" + "; ".join(f"({a}%nat, {b}%nat, {t}%nat, {q(x)})" for (a, b, t), x in zip(st["edges"], g)) + "]"
+    return (f"arr_mstore_okQ {st['nb']}%nat {tp['nbp']}%nat {pb} {cb} {kd} {pr} {nat_list(st['cs'])} {nat_list(st['pl'])} {nat_list(st['nc'])} "
+            f"{nat_list(st['mask'])} {st['ncomp']}%nat {es} {q_list(v)} {q_list(vt)} {q_list(ct)} {q(dt)} "
+            f"{nat_list(st['group'])} {nat_list(st['child_inds'])} {nat_list(st['par_inds'])}")
+
+
 def run_real(m, st, g, v, vt, ct, dt, solver):
     import numpy as np
     import jax.numpy as jnp
